@@ -26,6 +26,7 @@ def run(chk):
     r16b(chk, 'R15.e')
     r09d(chk, 'R15.f')
     r15g(chk)
+    r15h(chk)
 
 
 def _is_filtered(e):
@@ -250,3 +251,93 @@ def r15g(chk, rid='R15.g'):
                'the prefix reported by the rule (and used by the namespace mapping and by selectors) changes while the serialised rule keeps the old one')
     init = ast.unparse(chk.repo.fn(NSRULE, 'CSSNamespaceRule.__init__'))
     chk.ob(rid, NSRULE, 'CSSNamespaceRule.__init__', 'the constructor sets URI and prefix through their setters', 'self.namespaceURI = namespaceURI' in init and 'self.prefix = prefix' in init, '', shape=True)
+
+
+def r15h(chk, rid='R15.h'):
+    chk.rule(rid, 'the clean-up after a namespace edit, decided by evaluation: CSSStyleSheet._cleanNamespaces is evaluated on its syntax tree - with the effective mapping computed by _Namespaces.namespaces, evaluated from util.py - from every list of @namespace rules that can arise - a list of up to two rules with one rule per prefix and per URI (prefixes p, q and the default; two URIs), into which one further declaration was inserted at any position, mixed with other rules: afterwards no prefix and no URI is declared twice, the remaining @namespace rules are exactly the pairs of the mapping, and nothing but @namespace rules was removed')
+    import itertools
+    import operator
+
+    from sa.absint import Evaluator, Obj, Raised, Record
+
+    sm = chk.repo.mod(SHEET)
+    um = chk.repo.mod(UTIL)
+    clean = sm.get('CSSStyleSheet._cleanNamespaces')
+    nsprop = um.get('_Namespaces.namespaces')
+    K = dict(NAMESPACE_RULE=10, STYLE_RULE=1)
+
+    def unique_everseen(it, key=None):
+        seen, out = set(), []
+        for x in it:
+            k = key(x) if key else x
+            if k not in seen:
+                seen.add(k)
+                out.append(x)
+        return out
+
+    class Rules(list):
+        @property
+        def length(self):
+            return len(self)
+
+    n = 0
+    bad = []
+    choices = [(p, u) for p in ('p', 'q', '') for u in ('u1', 'u2')]
+    def invariant(pairs):
+        return len({p for p, u in pairs}) == len(pairs) and len({u for p, u in pairs}) == len(pairs)
+
+    combos = []
+    for k in range(0, 3):
+        for base in itertools.product(choices, repeat=k):
+            if not invariant(base):
+                continue
+            for new in choices:
+                if new in base:
+                    continue  # insertRule does not insert a pair that is already declared
+                for pos in range(k + 1):
+                    combos.append(tuple(base[:pos]) + (new,) + tuple(base[pos:]))
+    for combo in sorted(set(combos)):
+        if True:
+            for style_at in (None, 0):
+                rules = Rules(Obj(type=10, prefix=p, namespaceURI=u, tag=f'{p}={u}#{i}', **K) for i, (p, u) in enumerate(combo))
+                if style_at is not None:
+                    rules.insert(style_at, Obj(type=1, tag='style', **K))
+                before = [r.tag for r in rules]
+
+                def mapping():
+                    got = Evaluator(nsprop, intrinsics={'unique_everseen': unique_everseen, 'operator': operator}, model_types=(Rules,), module=um, cls='_Namespaces').run(self=Record(parentStyleSheet=Record(cssRules=rules)))
+                    if isinstance(got, Raised):
+                        raise AnalysisError(f'_Namespaces.namespaces: {got!r}')
+                    return got
+
+                class NS(Record):
+                    def items(self):
+                        return list(mapping().items())
+
+                    def values(self):
+                        return list(mapping().values())
+
+                    def keys(self):
+                        return list(mapping().keys())
+
+                me = Record(cssRules=rules, _cssRules=rules, namespaces=NS())
+                me.deleteRule = lambda i: rules.pop(i)
+                res = Evaluator(clean, model_types=(Rules, NS), module=sm, cls='CSSStyleSheet').run(self=me)
+                n += 1
+                if isinstance(res, Raised):
+                    bad.append(f'{before}: {res!r}')
+                    continue
+                left = [(r.prefix, r.namespaceURI) for r in rules if r.type == 10]
+                probs = []
+                if len({p for p, u in left}) != len(left):
+                    probs.append('a prefix is declared twice')
+                if len({u for p, u in left}) != len(left):
+                    probs.append('a URI is declared twice')
+                if sorted(left) != sorted(mapping().items()):
+                    probs.append(f'mapping {sorted(mapping().items())} differs from the rules {sorted(left)}')
+                if [r.tag for r in rules if r.type != 10] != [t for t in before if t == 'style']:
+                    probs.append('another rule was removed')
+                if probs:
+                    bad.append(f'{before} -> {[r.tag for r in rules]}: ' + '; '.join(probs))
+    chk.extra['clean_namespace_cases'] = n
+    chk.ob(rid, SHEET, 'CSSStyleSheet._cleanNamespaces', f'all {n} rule lists end with one rule per prefix and per URI, equal to the mapping', not bad, f'{len(bad)} lists do not, e.g. ' + ' | '.join(bad[:2]))
